@@ -21,6 +21,11 @@
 
 typedef long long ll;
 
+// containment tolerances (relative to |anchor| + |side| of the whole box): a Cartesian wall is one
+// multiply-add away from the exact value, the wall of a level-L AMR cell carries L roundings
+static const double CART_TOL = 8.e-16;
+static const double AMR_TOL = 32.e-16;
+
 static uint64_t lineno = 0;
 // an operation of the implementation that does not come back (e.g. a traversal that never leaves
 // the grid) is reported as a property failure with the line that hangs
@@ -246,6 +251,39 @@ static CoordinateVector<> box_scale(const Box<> &b) {
   return s;
 }
 
+// the descent of AMRGrid::get_key / get_cell replayed through the public interface: 1 = a block
+// index is out of range, 2 = a child index is not 0/1 (the real code would then read
+// _top_level / _children out of bounds or descend into the wrong child), 0 = fine
+template < typename T >
+static int amr_out_of_range(AMRGrid< T > &grid, const Box<> &gbox, const CoordinateVector< uint_fast32_t > &n,
+                            const CoordinateVector<> &p) {
+  uint_fast32_t bi[3];
+  for (int i = 0; i < 3; ++i)
+    bi[i] = n[i] * (p[i] - gbox.get_anchor()[i]) / gbox.get_sides()[i];
+  if (bi[0] >= n[0] || bi[1] >= n[1] || bi[2] >= n[2])
+    return 1;
+  AMRGridCell< T > *cc = grid._top_level[bi[0]][bi[1]][bi[2]];
+  CoordinateVector<> sides;
+  for (int i = 0; i < 3; ++i)
+    sides[i] = gbox.get_sides()[i] / n[i];
+  CoordinateVector<> anchor;
+  for (int i = 0; i < 3; ++i)
+    anchor[i] = gbox.get_anchor()[i] + bi[i] * sides[i];
+  Box<> box(anchor, sides);
+  while (!cc->is_single_cell()) {
+    uint_fast8_t ci[3];
+    for (int i = 0; i < 3; ++i)
+      ci[i] = 2 * (p[i] - box.get_anchor()[i]) / box.get_sides()[i];
+    if (ci[0] >= 2 || ci[1] >= 2 || ci[2] >= 2)
+      return 2;
+    box.get_sides() *= 0.5;
+    for (int i = 0; i < 3; ++i)
+      box.get_anchor()[i] += ci[i] * box.get_sides()[i];
+    cc = cc->get_child(4 * ci[0] + 2 * ci[1] + ci[2]);
+  }
+  return 0;
+}
+
 static void op_amr(const std::vector< std::string > &w) {
   const std::string &sub = w[1];
   if (sub == "new" && w.size() == 12) {
@@ -300,38 +338,19 @@ static void op_amr(const std::vector< std::string > &w) {
   } else if (sub == "loc" && w.size() == 5) {
     const CoordinateVector<> p(dbl(w[2]), dbl(w[3]), dbl(w[4]));
     {
-      // the block indices exactly as get_key/get_cell compute them: out of range means the
-      // real code would index _top_level out of bounds
-      uint_fast32_t bi[3];
-      for (int i = 0; i < 3; ++i)
-        bi[i] = amr_n[i] * (p[i] - amr_box.get_anchor()[i]) / amr_box.get_sides()[i];
-      if (bi[0] >= amr_n[0] || bi[1] >= amr_n[1] || bi[2] >= amr_n[2]) {
+      const int oor = amr_out_of_range(*amr, amr_box, amr_n, p);
+      if (oor == 1) {
+        uint_fast32_t bi[3];
+        for (int i = 0; i < 3; ++i)
+          bi[i] = amr_n[i] * (p[i] - amr_box.get_anchor()[i]) / amr_box.get_sides()[i];
         std::cout << "amr loc out-of-range " << bi[0] << " " << bi[1] << " " << bi[2] << "\n";
         oracle("locate-index-out-of-range amr");
         return;
       }
-      // the descent of get_key/get_cell, step by step through the public interface
-      AMRGridCell< uint64_t > *cc = amr->_top_level[bi[0]][bi[1]][bi[2]];
-      CoordinateVector<> sides;
-      for (int i = 0; i < 3; ++i)
-        sides[i] = amr_box.get_sides()[i] / amr_n[i];
-      CoordinateVector<> anchor;
-      for (int i = 0; i < 3; ++i)
-        anchor[i] = amr_box.get_anchor()[i] + bi[i] * sides[i];
-      Box<> box(anchor, sides);
-      while (!cc->is_single_cell()) {
-        uint_fast8_t ci[3];
-        for (int i = 0; i < 3; ++i)
-          ci[i] = 2 * (p[i] - box.get_anchor()[i]) / box.get_sides()[i];
-        if (ci[0] >= 2 || ci[1] >= 2 || ci[2] >= 2) {
-          std::cout << "amr loc out-of-range child\n";
-          oracle("locate-index-out-of-range amr-child");
-          return;
-        }
-        box.get_sides() *= 0.5;
-        for (int i = 0; i < 3; ++i)
-          box.get_anchor()[i] += ci[i] * box.get_sides()[i];
-        cc = cc->get_child(4 * ci[0] + 2 * ci[1] + ci[2]);
+      if (oor == 2) {
+        std::cout << "amr loc out-of-range child\n";
+        oracle("locate-index-out-of-range amr-child");
+        return;
       }
     }
     const amrkey_t key = amr->get_key(p);
@@ -345,7 +364,7 @@ static void op_amr(const std::vector< std::string > &w) {
       oracle("amr-located-cell-is-not-a-leaf");
     if (&amr->get_cell(p) != &c.value())
       oracle("amr-get_cell-and-get_key-disagree");
-    if (!in_box(g, p, 4.e-16, sc))
+    if (!in_box(g, p, AMR_TOL, sc))
       oracle("amr-located-cell-does-not-contain-position");
     uint64_t strict = 0;
     bool other = false;
@@ -353,7 +372,7 @@ static void op_amr(const std::vector< std::string > &w) {
     uint64_t guard = 0;
     while (k != amr->get_max_key() && guard++ < amr->get_number_of_cells() + 5) {
       AMRGridCell< uint64_t > &o = (*amr)[k];
-      if (in_box(o.get_geometry(), p, -4.e-16, sc)) {
+      if (in_box(o.get_geometry(), p, -AMR_TOL, sc)) {
         ++strict;
         if (&o != &c)
           other = true;
@@ -512,12 +531,12 @@ static void op_cart(const std::vector< std::string > &w) {
     if (cart->get_indices(li).x() != ix.x() || cart->get_indices(li).y() != ix.y() ||
         cart->get_indices(li).z() != ix.z())
       oracle("cartesian-long-index-roundtrip");
-    if (!in_box(g, p, 4.e-16, sc))
+    if (!in_box(g, p, CART_TOL, sc))
       oracle("cartesian-located-cell-does-not-contain-position");
     uint64_t strict = 0;
     bool other = false;
     for (uint64_t c = 0; c < nc; ++c) {
-      if (in_box(cart->get_cell((cellsize_t)c), p, -4.e-16, sc)) {
+      if (in_box(cart->get_cell((cellsize_t)c), p, -CART_TOL, sc)) {
         ++strict;
         if (c != li)
           other = true;
@@ -954,15 +973,19 @@ static void op_amrd(const std::vector< std::string > &w) {
   if (sub == "loc" && w.size() == 5) {
     const CoordinateVector<> p(dbl(w[2]), dbl(w[3]), dbl(w[4]));
     std::cout << "amrd loc\n";
+    if (amr_out_of_range(amrd->_grid, amrd_box, amrd->_grid._ncell, p)) {
+      oracle("locate-index-out-of-range amrdensitygrid");
+      return;
+    }
     const cellsize_t c = amrd->get_cell_index(p);
     if (c >= nc) {
       oracle("amrdensitygrid-cell-index-out-of-range");
       return;
     }
-    if (!in_box(amrd->_cells[c]->get_geometry(), p, 4.e-16, sc))
+    if (!in_box(amrd->_cells[c]->get_geometry(), p, AMR_TOL, sc))
       oracle("amrdensitygrid-located-cell-does-not-contain-position");
     for (uint64_t o = 0; o < nc; ++o)
-      if (o != c && in_box(amrd->_cells[o]->get_geometry(), p, -4.e-16, sc)) {
+      if (o != c && in_box(amrd->_cells[o]->get_geometry(), p, -AMR_TOL, sc)) {
         oracle("amrdensitygrid-position-inside-another-cell");
         break;
       }
@@ -974,13 +997,17 @@ static void op_amrd(const std::vector< std::string > &w) {
     const double tau = dbl(w[8]), sH = dbl(w[9]);
     for (uint64_t c = 0; c < nc; ++c)
       DensityGrid::iterator(c, *amrd).get_ionization_variables().reset_mean_intensities();
+    std::cout << "amrd ray\n";
+    if (amr_out_of_range(amrd->_grid, amrd_box, amrd->_grid._ncell, p0)) {
+      oracle("locate-index-out-of-range amrdensitygrid");
+      return;
+    }
     Photon photon(p0, dir, 1.);
     photon.set_cross_section(ION_H_n, sH);
     photon.set_cross_section_He_corr(0.);
     DensityGrid::iterator it = amrd->interact(photon, tau);
     const CoordinateVector<> pf = photon.get_position();
     const bool absorbed = !(it == amrd->end());
-    std::cout << "amrd ray\n";
     double total = 0., taudone = 0., kmax = 0., smax = 0.;
     for (uint64_t c = 0; c < nc; ++c) {
       const IonizationVariables &iv = DensityGrid::iterator(c, *amrd).get_ionization_variables();
